@@ -44,6 +44,9 @@ RULE = (
     "attempt k / two replies) and closed ports (real ICMP); verdicts on counts only: datagrams "
     "the peer received, /proc/self/fd delta after the call, ResourceWarnings. Distinct by "
     "(retries, timeout, outcome sequence)."
+    " Also: timeouts 0 / 0.001 / 3600 / 10^6+0.5, replies of 0..65527 octets (65507 on the re"
+    "al socket too), and every spelling of the call (keywords, the documented positional orde"
+    "r, loop=None, no loop)."
 )
 ASSUMPTIONS = [
     "the fake transport follows asyncio's selector datagram transport closing semantics (no delivery after close/abort, connection_lost via call_soon)",
